@@ -84,9 +84,11 @@ def run(ctx):
     ctx.trusted += ["hand model coq/theories/C11/Tab.v; tools/checks/C11.py generators; astropy.wcs/wcslib as the standard reader"]
     ctx.gate()
     ctx.coq_theorems("C11/Tab", ["node_exact", "table_spans_box", "index_affine", "degenerate_cdelt", "naxis_covers", "npix_ge_2"])
+    ctx.coq_theorems("C11/TabAxes", ["pc_row_selects_axis", "diagonal_left_in_place_refuted"])
     pins.check(ctx, PINS)
     rng = ctx.rng
     problems, terms, meta = [], [], []
+    terms_pc, meta_pc = [], []
     kinds = ["spec1", "spec1-curved", "spec-time", "coupled2", "cube", "degenerate"]
     for ci in range(24 if ctx.quick else 300):
         kind = kinds[ci % len(kinds)]
@@ -157,6 +159,17 @@ def run(ctx):
             if int(naxis) != int(max(bb[iax])) + 1:
                 problems.append((f"{kind}: NAXIS{iax + 1} = {naxis} does not match the bounding box {bb} (expected {int(max(bb[iax])) + 1})",
                                  {"box": bb, "how": "w.to_fits_tab()[0]"}, "C11/tab-naxis-index" if int(naxis) == int(max(bb[0])) + 1 else None))
+        # ---- PC row of every tabulated world axis vs TabAxes.v ---------------------------------------------------
+        expect_axes = {"spec1": [(1, 1)], "spec1-curved": [(1, 1)], "spec-time": [(1, 1), (2, 2)], "coupled2": [(1, 1), (2, 2)],
+                       "cube": [(3, 3)], "degenerate": [(1, 1), (2, 3), (3, 2)]}[kind]       # (FITS world axis k1, image axis m1 it is read along)
+        if not any(k.startswith("CD") and "_" in k for k in hdr):
+            nfits = max([int(k[5:]) for k in hdr if k.startswith("CTYPE") and k[5:].isdigit()] + [m for _, m in expect_axes])
+            for k1, m1 in expect_axes:
+                row = [hdr.get(f"PC{k1}_{j}", 1.0 if j == k1 else 0.0) for j in range(1, nfits + 1)]
+                terms_pc.append(f"({gz(nfits)}, {gz(k1)}, {gz(m1)}, {glist([gz(int(v)) for v in row])}, {'true' if all(float(v) == int(v) for v in row) else 'false'})")
+                meta_pc.append((kind, k1, m1, row))
+                if not str(hdr.get(f"CTYPE{k1}", "")).endswith("-TAB"):
+                    problems.append((f"{kind}: CTYPE{k1} = {hdr.get(f'CTYPE{k1}')!r} is not a -TAB axis", {"kind": kind, "box": bb}, None))
         # ---- the standard reader reproduces the WCS at every node and in between -----------------------------
         try:
             hl = fits.HDUList([fits.PrimaryHDU(header=hdr)] + list(hdus))
@@ -231,6 +244,12 @@ def run(ctx):
                            "(Tab.npix (lo # 64) (hi # 64) (s # 64) =? np) end)")
     ctx.oblige("correspondence: NAXISi / CRPIXi / number of nodes of every exported header = model (exact rationals, in Coq)", fail == [],
                "" if fail == [] else str([meta[i] for i in (fail or [])[:3]]))
+    failpc = ctx.coq_failing("pcrow", "From Coq Require Import ZArith List Bool. Import ListNotations. Open Scope Z_scope.\nFrom GW Require Import C11.TabAxes.\n",
+                             terms_pc, "(fun c => let '(n, k1, m1, row, ints) := c in ints && "
+                             "(fix eq (a b : list Z) := match a, b with [], [] => true | x :: r, y :: s => (x =? y) && eq r s | _, _ => false end) "
+                             "(pc_row_list n k1 m1) row)")
+    ctx.oblige("correspondence: PC row of every tabulated world axis = unit vector of its image axis (TabAxes.v)", failpc == [],
+               "" if failpc == [] else str([meta_pc[i] for i in (failpc or [])[:3]]))
     seen = set()
     for what, rep, key in problems:
         kk = key or what[:50]
